@@ -261,5 +261,8 @@ def check(run):
             ty = x.owner.ty(x.call)
             run.check(TICK in ty, 'R14', 'clock-resolution', '%s: %s' % (q.top_function(fx, f_).norm, q.render(x.owner, x.call)[:60]), x.owner.loc(x.call),
                       'a timing computation of the hop casts a duration to %s, coarser than the clock tick (truncation of latency / serialisation time)' % ty, 'cast to clock ticks')
+    run.clause('no packet re-enters a route behind a hop: a retransmitted TCP segment gets its full route back before it is re-queued (shared with C06)')
+    import p06
+    p06.retransmit_route_rule(run)
     run.floor('R10', 2)
     run.floor('R4', 3)
